@@ -785,6 +785,15 @@ def c19_run(rng):
     return {"prop": "C19", "config": cfg, "steps": steps, "final": ["c19"]}
 
 
+def c18_killed_session_run(rng):
+    """Recorded finding F-EARLY reached through a session (C18: '... never escape as an exception'): a worker cancels a
+    not-yet-started sibling, then gather-and-close raises CancelledError inside the session and ends it."""
+    run = c19_killed_session_run(rng)
+    run.update({"prop": "C18", "final": ["sessions_clean"]})
+    run.pop("expect_killed", None)
+    return run
+
+
 def c19_killed_session_run(rng):
     """A session that ends with a BaseException: a worker cancels a not-yet-started sibling (recorded finding
     F-EARLY), then gather-and-close raises CancelledError inside the session.  Only C19's oracles are in force."""
@@ -1003,6 +1012,10 @@ def units(prop, tier, seed):
         return
     n = QUICK_N[prop]
     i = 0
+    if prop == "C18":
+        yield ("witness", "witness/F-EARLY-C18.json", next(order))
+        for k in range(6 if tier == "quick" else 40):
+            yield ("killed18", subseed(seed, prop, "killed", k), next(order))
     if prop == "C19":
         yield ("witness", "witness/F-PARKED-C19.json", next(order))
         for k in range(8 if tier == "quick" else 60):
@@ -1030,11 +1043,12 @@ def _account(prop, sim, agg, order, kind, nontrivial, sample=True, signature=Non
         if v["prop"] != prop or v["oracle"] in seen:
             continue
         seen.add(v["oracle"])
+        vsig = v.get("signature") or signature
         rec = {"order": order, "prop": prop, "oracle": v["oracle"], "msg": v["msg"], "run": copy.deepcopy(sim.run),
-               "engine": "ctl", "signature": signature}
-        if known_entry(prop, signature, v["oracle"]) is not None:
-            agg.known.setdefault((signature, v["oracle"]), rec)
-            agg.stats["known:" + str(signature)] += 1
+               "engine": "ctl", "signature": vsig}
+        if known_entry(prop, vsig, v["oracle"]) is not None:
+            agg.known.setdefault((vsig, v["oracle"]), rec)
+            agg.stats["known:" + str(vsig)] += 1
         elif len(agg.violations) < 6:
             agg.violations.append(rec)
 
@@ -1086,6 +1100,11 @@ def exec_unit(prop, unit, agg):
             a.violate("C17", mism[0], mism[1])
         a.run = {"prop": "C17", "config": cfg, "cmds": cmds, "steps": [], "seed": arg, "twin": True}
         _account(prop, a, agg, order, "twin", len(a.invocations) > 0 or any(r not in ("ok", None) for r in ra))
+        return
+    if kind == "killed18":
+        sim = CtlSim(c18_killed_session_run(random.Random(arg)), {prop}).execute()
+        agg.stats["probe:session_ended_by_base_exception"] += int(bool(sim.early_dead_tasks()))
+        _account(prop, sim, agg, order, "killed_session", True)
         return
     if kind == "parked":
         sim = CtlSim(c19_parked_run(random.Random(arg)), {prop}).execute()
